@@ -285,4 +285,136 @@ theorem dispatch_mov_ri (c : Model.X86.Ctx) (row : Row) (k : RegKind) (i : Nat) 
   rcases hk with h | h | h <;> subst h <;>
     simp [dispatch, henc, sig3, Op.kind, Op.id, Op.rmSize, Op.isGp, Op.immVal, rtypeOf, kindSize, oLongForm, hfit]
 
+/-! ### class X86Mov: `mov r64, imm32` sign-extended (REX.W C7 /0 id) - the form the class prefers when the value is representable -/
+
+def entryOkMovRmi (e : Entry) : Bool :=
+  match e.rule.ops, e.kinds with
+  | [f0, f3], [k0] =>
+    e.enc == 0x2c && (k0 == .gpq && (plainKind k0 && (f0.role == .rm && (f3.role == .imm && (noFix f0 && (formOpMatches e.rule.oszEff f0 (.reg k0 0) &&
+    (!e.rule.immRev && (immBitsOf f3 == 32 && (immSignCase e.rule f3 && (e.rule.oszEff == 64 &&
+    (legRuleDOk e.rule 4 (((kW ||| 0xC7#32) >>> 21) &&& 3#32).toNat 0 && legAgreeOk e.rule (kW ||| 0xC7#32))))))))))))
+  | _, _ => false
+
+theorem movrmi_entries_ok : lmovrmiChunks.all (fun c => c.all entryOkMovRmi) = true := by decide +kernel
+
+theorem front_cls_correct_mov_r64_imm32 (e : Entry) (ch : List Entry) (hch : ch ∈ lmovrmiChunks) (he : e ∈ ch)
+    (ctx : Spec.X86.Ctx) (r0 : BitVec 32) (v : BitVec 64) (hm64 : ctx.mode64 = true) (h0 : r0 < 16#32)
+    (himm : ∀ f3, e.rule.ops[1]? = some f3 → formOpMatches e.rule.oszEff f3 (.imm v) = true)
+    (hfit : isInt32of64 v = true) :
+    ∃ bytes, e.kinds = [.gpq] ∧ emitX86R (kW ||| 0xC7#32) 0#32 0#32 r0 v 4 = .ok bytes ∧
+      formOk ctx e.rule [.reg .gpq r0.toNat, .imm v] {} bytes = true := by
+  have hok := mem_chunks_ok movrmi_entries_ok e ch hch he
+  unfold entryOkMovRmi at hok
+  split at hok
+  · rename_i f0 f3 k0 hops hkinds
+    have m3 : formOpMatches e.rule.oszEff f3 (.imm v) = true := himm f3 (by rw [hops]; rfl)
+    simp only [Bool.and_eq_true, Bool.or_eq_true, beq_iff_eq, bne_iff_ne, ne_eq, Bool.not_eq_true', decide_eq_true_eq] at hok
+    obtain ⟨-, hq, pk, ra, r3, n0, m0, hrev, hnb, hsc, hosz, hR, hA⟩ := hok
+    subst hq
+    obtain ⟨A, hmask⟩ := legAgreeOk_spec _ _ hA
+    have R := legRuleDOk_spec _ _ _ _ hR
+    have hal : alignOps e.rule.oszEff e.rule.ops [.reg .gpq r0.toNat, .imm v] = some [(f0, some (.reg .gpq r0.toNat)), (f3, some (.imm v))] := by
+      rw [hops]
+      exact alignOps2 _ _ _ _ _ (by rw [formOpMatches_reg_nofix _ _ _ _ n0]; exact m0) m3
+    have hn : immBytesOf (immBitsOf f3) = 4 := by rw [hnb]; decide
+    have hn4 : immBitsOf f3 ≠ 4 := by rw [hnb]; decide
+    obtain ⟨bytes, hb, hf⟩ := rmImm_formOk ctx e.rule (kW ||| 0xC7#32) 0#32 r0 .gpq f0 f3 v v 4 hm64
+      (by simpa using R.hmodes) hmask (plainKind_spec _ pk) (by decide) h0 R A ra (by
+        intro p hp
+        refine immConds_ok ctx e.rule p f3 v r3 hn4 hrev ?_
+        rw [hn, hp, take_emitImmediate]
+        have hsc' : (immSignOf f3 == 1 && e.rule.oszEff != 0 && decide (8 * 4 < e.rule.oszEff)) = immSignCase e.rule f3 := by
+          simp [immSignCase, hn]
+        rw [hsc', hsc]
+        simp only [↓reduceIte, decide_eq_true_eq, hosz]
+        rw [emitImmediate_leBytes, leNat_leBytes4]
+        have := sext32_mod v hfit
+        simpa using this) hal
+    exact ⟨bytes, hkinds, hb, hf⟩
+  · simp at hok
+
+theorem dispatch_mov_r64_imm32 (c : Model.X86.Ctx) (row : Row) (i : Nat) (v : BitVec 64) (henc : row.encoding = 0x2c) (hfit : isInt32of64 v = true) :
+    dispatch c row 0#32 (.reg (rtypeOf .gpq) i) (.imm v) .none .none = emitX86R (kW ||| 0xC7#32) 0#32 0#32 (r32 i) v 4 := by
+  simp [dispatch, henc, sig3, Op.kind, Op.id, Op.rmSize, Op.isGp, Op.immVal, rtypeOf, oLongForm, hfit]
+
+/-! ### class X86Mov: `mov MEM, imm` (C6 /0 ib, C7 /0 iw|id, REX.W C7 /0 id sign-extended) -/
+
+def movMiOpc (e : Entry) : BitVec 32 :=
+  let s := kindSize (e.kinds.getD 0 .none)
+  addPrefixBySize (if s != 1 then 0xC7#32 else 0xC6#32) s
+
+def entryOkMovMi (e : Entry) : Bool :=
+  match e.rule.ops, e.kinds with
+  | [f0, f3], [k0] =>
+    let s := kindSize k0
+    !anyMemAlt f0 ||
+    (e.enc == 0x2c && ((s == 1 || s == 2 || s == 4 || s == 8) && (legRuleMDOk e.rule (min s 4) ((movMiOpc e >>> 21) &&& 3#32).toNat 0 &&
+    (legAgreeOk e.rule (movMiOpc e) && (movMiOpc e &&& 0xF780FC00#32 == 0#32 && (f0.role == .rm && (f3.role == .imm && (hasMemAlt f0 s &&
+    (immBitsOf f3 == 8 * min s 4 && (!immSignCase e.rule f3 || (s == 8 && e.rule.oszEff == 64)))))))))))
+  | _, _ => false
+
+theorem movmi_entries_ok : lmovmiChunks.all (fun c => c.all entryOkMovMi) = true := by decide +kernel
+theorem movmi_all_mem : lmovmiChunks.all (fun c => c.all (fun e => match e.rule.ops with | [f0, _] => anyMemAlt f0 | _ => true)) = true := by decide +kernel
+
+/-- **front_cls_correct, class X86Mov, `mov MEM, imm`**: memory operands of 1 / 2 / 4 / 8 bytes, every address form with an `AddrFormL`
+instance, every immediate (for a 64-bit destination: representable as a sign-extended imm32). -/
+theorem front_cls_correct_mov_mi_mem (e : Entry) (ch : List Entry) (hch : ch ∈ lmovmiChunks) (he : e ∈ ch)
+    (c : Model.X86.Ctx) (ctx : Spec.X86.Ctx) (xb : BitVec 32) (m : Mem) (mo : MemOp) (pfx : List (BitVec 8))
+    (mb : BitVec 32 → BitVec 8) (sib : Option (BitVec 8)) (ds : List (BitVec 8))
+    (AF : AddrFormL c ctx m mo pfx xb mb sib ds) (v : BitVec 64) (hm64 : ctx.mode64 = true)
+    (hsize : mo.size = kindSize (e.kinds.getD 0 .none))
+    (himm : ∀ f3, e.rule.ops[1]? = some f3 → formOpMatches e.rule.oszEff f3 (.imm v) = true)
+    (hfit : kindSize (e.kinds.getD 0 .none) = 8 → isInt32of64 v = true) :
+    ∃ bytes k0, e.kinds = [k0] ∧ emitX86M c (movMiOpc e) 0#32 0#32 m v (min (kindSize k0) 4) = .ok bytes ∧
+      formOk ctx e.rule [.mem mo, .imm v] {} bytes = true := by
+  have hok := mem_chunks_ok movmi_entries_ok e ch hch he
+  unfold entryOkMovMi at hok
+  split at hok
+  · rename_i f0 f3 k0 hops hkinds
+    have m3 : formOpMatches e.rule.oszEff f3 (.imm v) = true := himm f3 (by rw [hops]; rfl)
+    simp only [hkinds, List.getD_cons_zero] at hsize hfit
+    have hcases : anyMemAlt f0 = false ∨ anyMemAlt f0 = true := by cases anyMemAlt f0 <;> simp
+    simp only [Bool.and_eq_true, Bool.or_eq_true, beq_iff_eq, bne_iff_ne, ne_eq, Bool.not_eq_true', decide_eq_true_eq] at hok
+    rcases hok with hno | ⟨-, hs', hR, hA, hmask, ra, r3, hma, hnb, hscase⟩
+    · -- the generated chunk has a memory alternative in every entry (decided below)
+      exfalso
+      have hall := mem_chunks_ok movmi_all_mem e ch hch he
+      simp only [hops] at hall
+      rw [hno] at hall
+      exact absurd hall (by decide)
+    · obtain ⟨R, hmode⟩ := legRuleMDOk_spec _ _ _ _ hR
+      have A := (legAgreeOk_spec _ _ hA).1
+      have hs : kindSize k0 = 1 ∨ kindSize k0 = 2 ∨ kindSize k0 = 4 ∨ kindSize k0 = 8 := by omega
+      have hal : alignOps e.rule.oszEff e.rule.ops [.mem mo, .imm v] = some [(f0, some (.mem mo)), (f3, some (.imm v))] := by
+        rw [hops]
+        exact alignOps2 _ _ _ _ _ (hasMemAlt_matches _ _ _ _ hma hsize AF.hvsib) m3
+      have hn : immBytesOf (immBitsOf f3) = min (kindSize k0) 4 := by
+        rw [hnb]; rcases hs with h | h | h | h <;> rw [h] <;> decide
+      have hn4 : immBitsOf f3 ≠ 4 := by rw [hnb]; rcases hs with h | h | h | h <;> rw [h] <;> decide
+      obtain ⟨bytes, hb, hf⟩ := legM_mi_formOk c ctx e.rule (movMiOpc e) 0#32 xb m mo pfx mb sib ds AF f0 f3 0 v v (min (kindSize k0) 4) hm64 hmode hmask
+        (by decide) R (by intro _; rfl) A ra (by
+          intro p hp
+          refine immConds_ok ctx e.rule p f3 v r3 hn4 R.hrev ?_
+          rw [hn, hp, take_emitImmediate]
+          have hsc : (immSignOf f3 == 1 && e.rule.oszEff != 0 && decide (8 * min (kindSize k0) 4 < e.rule.oszEff)) = immSignCase e.rule f3 := by
+            simp [immSignCase, hn]
+          rw [hsc]
+          rcases hscase with hsf | ⟨hs8, hosz⟩
+          · rw [hsf]; simp [emitImmediate_leBytes]
+          · cases hsc2 : immSignCase e.rule f3
+            · simp [emitImmediate_leBytes]
+            · simp only [↓reduceIte, decide_eq_true_eq]
+              simp only [hs8, hosz, show min 8 4 = 4 from rfl]
+              rw [emitImmediate_leBytes, leNat_leBytes4]
+              have := sext32_mod v (hfit hs8)
+              simpa using this) hal
+      exact ⟨bytes, k0, hkinds, hb, hf⟩
+  · simp at hok
+
+theorem dispatch_mov_mi (c : Model.X86.Ctx) (row : Row) (m : Mem) (v : BitVec 64) (henc : row.encoding = 0x2c) (hsz : m.size ≠ 0) :
+    dispatch c row 0#32 (.mem m) (.imm v) .none .none =
+      emitX86M c (addPrefixBySize (if m.size != 1 then 0xC7#32 else 0xC6#32) m.size) 0#32 0#32 m v (min m.size 4) := by
+  have h : (m.size == 0) = false := by simpa using hsz
+  simp [dispatch, henc, sig3, Op.kind, Op.rmSize, Op.immVal, h]
+
 end AsmjitVerif.Props.C01
